@@ -1183,6 +1183,30 @@ pub fn run(session: &Session, prop: &'static RefProp, rule: &str) -> i32 {
         session.set_extra("keyword_prefixed_name_cases", json!(keyword_cases.len()));
         session.run_enum(prop, keyword_cases);
     }
+    if prop.id == "C07" && !session.stopped() {
+        // operands are evaluated whatever their types make of the result: `==` / `!=` between values of
+        // different kinds, repeated field names in a struct literal (every initialiser runs, in order),
+        // operands of operations whose result is discarded
+        let pre = "log := mut \"\"; ti := (k: string, v: int) -> int { log += k; return v; }; ts := (k: string, v: string) -> string { log += k; return v; }; tb := (k: string, v: bool) -> bool { log += k; return v; }; tf := (k: string, v: float) -> float { log += k; return v; }; ";
+        let mut cases = vec![];
+        for (text, want) in [
+            ("r := ti(\"a\", 1) == ts(\"b\", \"s\"); (r, *log)", "value (false, \"ab\")"),
+            ("r := ti(\"a\", 1) != tb(\"b\", true); (r, *log)", "value (true, \"ab\")"),
+            ("r := tf(\"a\", 1.0) == ti(\"b\", 1); (r, *log)", "value (false, \"ab\")"),
+            ("r := ts(\"a\", \"1\") != 1; s := 2.5 == tb(\"b\", false); (r, s, *log)", "value (true, false, \"ab\")"),
+            ("f := () -> bool { return ti(\"a\", 1) == ts(\"b\", \"s\"); }; (f(), f(), *log)", "value (false, false, \"abab\")"),
+            ("if ti(\"a\", 1) == ts(\"b\", \"1\") { log += \"T\"; } else { log += \"F\"; }; *log", "value \"abF\""),
+            ("r := () == ti(\"a\", 0); s := ti(\"b\", 0) != (); (r, s, *log)", "value (false, true, \"ab\")"),
+            ("s := struct{a := ti(\"1\", 1), b := ti(\"2\", 2), a := ti(\"3\", 3)}; (s.a, s.b, *log)", "value (3, 2, \"123\")"),
+            ("f := () -> int { s := struct{a := ti(\"1\", 1), a := ti(\"2\", 2), a := ti(\"3\", 3)}; return s.a; }; (f(), *log)", "value (3, \"123\")"),
+            ("s := struct{a := ti(\"1\", 1), b := ts(\"2\", \"x\"), a := ts(\"3\", \"y\"), b := ti(\"4\", 4)}; (s.a, s.b, *log)", "value (\"y\", 4, \"1234\")"),
+            ("struct{a := ti(\"1\", 1), a := ti(\"2\", 2)}; ti(\"3\", 3) == ts(\"4\", \"s\"); *log", "value \"1234\""),
+            ("m := mod { a := ti(\"1\", 1); b := ti(\"2\", 2); a := ti(\"3\", 3); }; (m.a, *log)", "value (3, \"123\")"),
+        ] {
+            cases.push(json!({"kind": "probe", "sig": "C07:operands-run-whatever-their-types", "text": format!("{pre}{text}"), "expected": want}));
+        }
+        session.run_enum(prop, cases);
+    }
     if prop.id == "C11" && !session.stopped() {
         // `it ? T` for types whose text needs parentheses somewhere (a cell of a union, a function that
         // returns a union, a function as a member), alone, as members of a union, inside arrays and tuples:
